@@ -1513,7 +1513,7 @@ def build(workdir, ns, header, source, driver):
             f.write(body)
     res = {'gcc': None, 'san': None, 'warnings': {}, 'errors': [], 'out': ''}
     # errors located in the generated files = the generated source is not valid C99
-    p = subprocess.run(GCC + [ns + '.c', 'drv.c', '-o', 'drv_gcc'], cwd=workdir, stdout=subprocess.PIPE, stderr=subprocess.STDOUT, text=True)
+    p = subprocess.run(GCC + [ns + '.c', 'drv.c', '-o', 'drv_gcc'], cwd=workdir, stdout=subprocess.PIPE, stderr=subprocess.STDOUT, text=True, errors='replace')
     res['warnings'], errors = warnings_of(p.stdout, {ns + '.c', ns + '.h'})
     res['out'] = p.stdout[-3000:]
     if p.returncode != 0:
@@ -1522,7 +1522,7 @@ def build(workdir, ns, header, source, driver):
             res['driver_error'] = p.stdout[-3000:]
         return res
     res['gcc'] = os.path.join(workdir, 'drv_gcc')
-    p = subprocess.run(CLANG + ['drv.c', ns + '.c', '-o', 'drv_san'], cwd=workdir, stdout=subprocess.PIPE, stderr=subprocess.STDOUT, text=True)
+    p = subprocess.run(CLANG + ['drv.c', ns + '.c', '-o', 'drv_san'], cwd=workdir, stdout=subprocess.PIPE, stderr=subprocess.STDOUT, text=True, errors='replace')
     if p.returncode != 0:
         res['driver_error'] = 'clang: ' + p.stdout[-3000:]
         return res
@@ -1541,7 +1541,7 @@ def run_binary(path, lines, sanitized, timeout=600):
     start = 0
     while start < len(lines):
         p = subprocess.run([path], input=''.join(l + '\n' for l in lines[start:]), stdout=subprocess.PIPE, stderr=subprocess.PIPE,
-                           text=True, env=env, timeout=timeout)
+                           text=True, errors='replace', env=env, timeout=timeout)
         got = p.stdout.split('\n')
         got.pop()          # '' after the last newline, or the partial line of a crashing command
         complete = got if p.returncode == 0 else got[:max(0, min(len(got), len(lines) - start))]
@@ -1549,7 +1549,7 @@ def run_binary(path, lines, sanitized, timeout=600):
             # all lines answered but the process failed at exit (e.g. leak report)
             for i, g in enumerate(got[:len(lines) - start]):
                 outs[start + i] = g
-            crashes.append((len(lines) - 1, p.returncode, p.stderr[-3000:], 'at-exit'))
+            crashes.append((len(lines) - 1, p.returncode, p.stderr[:2000] + '\n...\n' + p.stderr[-1200:] if len(p.stderr) > 3200 else p.stderr, 'at-exit'))
             break
         for i, g in enumerate(complete):
             outs[start + i] = g
@@ -1559,7 +1559,7 @@ def run_binary(path, lines, sanitized, timeout=600):
         # the crashing line may have printed a partial line without newline: drop it
         if bad < len(lines):
             outs[bad] = None
-        crashes.append((bad, p.returncode, p.stderr[-3000:], 'crash'))
+        crashes.append((bad, p.returncode, p.stderr[:2000] + '\n...\n' + p.stderr[-1200:] if len(p.stderr) > 3200 else p.stderr, 'crash'))
         if len(crashes) >= 25:
             break
         start = bad + 1
